@@ -72,6 +72,30 @@ theorem C10_memo_transparent {κ ν : Type} [DecidableEq κ] (f : κ → ν) (ev
     (memoRun f evict cache ks).1 = ks.map f ∧ CacheValid f (memoRun f evict cache ks).2 :=
   memoRun_transparent f evict hev cache hv ks
 
+/-- Per-instance caches (the key contains the instance: `lru_cache` on methods, `cached_property` in
+`instance.__dict__`, the loader's lookup dict): transparent although the function depends on the instance's
+configuration — the instance of T5 with key `(instance, arguments)`. -/
+theorem C10_memo_per_instance_transparent {ι κ ν : Type} [DecidableEq ι] [DecidableEq κ] (f : ι → κ → ν)
+    (evict : List ((ι × κ) × ν) → List ((ι × κ) × ν)) (hev : ∀ c p, p ∈ evict c → p ∈ c)
+    (cache : List ((ι × κ) × ν)) (hv : CacheValid (fun q : ι × κ => f q.1 q.2) cache) (qs : List (ι × κ)) :
+    (memoRun (fun q : ι × κ => f q.1 q.2) evict cache qs).1 = qs.map (fun q => f q.1 q.2) :=
+  (memoRun_transparent _ evict hev cache hv qs).1
+
+/-- A cache shared by all instances is transparent only for functions that do not depend on the instance
+(`_make_textwrap`) … -/
+theorem C10_memo_shared_transparent_if_instance_independent {ι κ ν : Type} [DecidableEq κ] (f : ι → κ → ν)
+    (hind : ∀ i j k, f i k = f j k) (qs : List (ι × κ)) :
+    (memoRunShared f [] qs).1 = qs.map (fun q => f q.1 q.2) :=
+  (memoRunShared_transparent f hind [] (by intro p hp; cases hp) qs).1
+
+/-- … and wrong otherwise: the second instance is served the first instance's value (a token encoder built for the
+first Language object reused by a later one with another stropping prefix). -/
+example : (memoRunShared (fun (prefixLen : Nat) (tok : Nat) => prefixLen + tok) [] [(1, 7), (5, 7)]).1 = [8, 8] ∧
+    [(1, 7), (5, 7)].map (fun q : Nat × Nat => q.1 + q.2) = [8, 12] := by decide
+
+/-- `cached_property.__get__` keeps its value in `instance.__dict__` (read off the source by the translator). -/
+theorem C10_cached_property_per_instance_in_source : TplFlows.cachedPropertyPerInstance = true := by decide
+
 /-- The empty cache of a fresh process is valid. -/
 theorem C10_memo_fresh_cache_valid {κ ν : Type} (f : κ → ν) : CacheValid f [] := by
   intro p hp; cases hp
